@@ -5071,7 +5071,9 @@ def fix_if_return(source: str) -> str:
     """
     replace = "return not ({{condition}})"
 
-    yield from processing.find_replace(source, find, replace, condition=ast.BoolOp, transaction=1)
+    # Whatever binds weaker than `not` needs its parentheses: not a if b else c is (not a) if b else c
+    weak = (ast.BoolOp, ast.IfExp, ast.Lambda)
+    yield from processing.find_replace(source, find, replace, condition=weak, transaction=1)
 
     find = """
     if {{condition}}:
@@ -5115,7 +5117,13 @@ def fix_if_assign(source: str) -> str:
 
     yield from _skip_elif_rewrites(
         source,
-        processing.find_replace(source, find, replace, condition=ast.BoolOp, transaction=1),
+        processing.find_replace(
+            source,
+            find,
+            replace,
+            condition=(ast.BoolOp, ast.IfExp, ast.Lambda),
+            transaction=1,
+        ),
     )
 
     find = """
